@@ -107,4 +107,89 @@ theorem statusWord_spec {clk : Nat} {k : Kernel} {B : Nat} {o : PObj} (hk : KInv
       refine ⟨?_, fun hl => ⟨x, rfl, hl, rfl⟩⟩
       rintro (h | h) <;> split at h <;> cases h
 
+/-! ### the clauses of C02 for ANY configuration with `BootGood` (Props/C02.lean instantiates them with the extracted
+    configuration, and with the repaired / as-found variants of the `BOOT_TIME` test) -/
+
+theorem eq_iff_same_gen {c : Cfg} (hc : c.BootGood) (b0 : Nat) (hb0 : BtOK c.createNoneTest b0) (h : List Ev)
+    (hh : HistOK c.createNoneTest h) (i j : Nat) (a b : PObj)
+    (ha : (run c (St.init b0) h).ps.objs[i]? = some a) (hb : (run c (St.init b0) h).ps.objs[j]? = some b) :
+    (step c (run c (St.init b0) h) (.c (.eq i j))).2 = .bool (decide (SameIncarnation a b)) := by
+  have hinv := run_inv hc h _ hh (init_inv c.clk hb0)
+  generalize run c (St.init b0) h = s at *
+  obtain ⟨B, hoa, hob⟩ := shared_boot hinv ha hb
+  rw [step_eq_out c s ha hb]
+  congr 1
+  rw [hoa.ident_eq, hob.ident_eq, Bool.eq_iff_iff, decide_eq_true_iff]
+  simp [SameIncarnation]
+
+theorem hash_congr_gen {c : Cfg} (hc : c.BootGood) (b0 : Nat) (hb0 : BtOK c.createNoneTest b0) (h : List Ev)
+    (hh : HistOK c.createNoneTest h) (i j : Nat) (a b : PObj)
+    (ha : (run c (St.init b0) h).ps.objs[i]? = some a) (hb : (run c (St.init b0) h).ps.objs[j]? = some b)
+    (hsame : SameIncarnation a b) :
+    (step c (run c (St.init b0) h) (.c (.hash i))).2 = (step c (run c (St.init b0) h) (.c (.hash j))).2 := by
+  have hinv := run_inv hc h _ hh (init_inv c.clk hb0)
+  generalize run c (St.init b0) h = s at *
+  obtain ⟨B, hoa, hob⟩ := shared_boot hinv ha hb
+  rw [step_hash_out c s ha, step_hash_out c s hb, hoa.ident_eq, hob.ident_eq, hsame.1, hsame.2]
+
+theorem isRunning_iff_listed_gen {c : Cfg} (hc : c.BootGood) (b0 : Nat) (hb0 : BtOK c.createNoneTest b0) (h : List Ev)
+    (hh : HistOK c.createNoneTest h) (i : Nat) (o : PObj) (ho : (run c (St.init b0) h).ps.objs[i]? = some o) :
+    (step c (run c (St.init b0) h) (.c (.isRunning i))).2 = .bool (listedB (run c (St.init b0) h).kern o) := by
+  have hinv := run_inv hc h _ hh (init_inv c.clk hb0)
+  generalize run c (St.init b0) h = s at *
+  obtain ⟨B, hB, hok⟩ := hinv.ps.objs o (List.mem_of_getElem? ho)
+  have hs := isRunningO_spec hc hB (hinv.ps.boot_nz B hB) hok
+  rw [step_isRunning_out c s ho]
+  congr 1
+  rw [Bool.eq_iff_iff, hs.iff, listedB_iff, listed_iff_owner hinv.kern]
+
+theorem isRunning_sticky_gen {c : Cfg} (hc : c.BootGood) (b0 : Nat) (hb0 : BtOK c.createNoneTest b0) (h : List Ev)
+    (hh : HistOK c.createNoneTest h) (i : Nat) (o : PObj) (ho : (run c (St.init b0) h).ps.objs[i]? = some o)
+    (hgone : ¬ Listed (run c (St.init b0) h).kern o) (h2 : List Ev) (hh2 : HistOK c.createNoneTest h2) :
+    (step c (run c (run c (St.init b0) h) h2) (.c (.isRunning i))).2 = .bool false := by
+  have hinv := run_inv hc h _ hh (init_inv c.clk hb0)
+  generalize run c (St.init b0) h = s at *
+  have hinv2 := run_inv hc h2 s hh2 hinv
+  obtain ⟨o', ho', hevo⟩ := run_ext hc h2 s hh2 hinv i o ho
+  obtain ⟨B, hB, hok⟩ := hinv.ps.objs o (List.mem_of_getElem? ho)
+  have hdead : s.kern.owner o.pid ≠ some o.ghost := fun e => hgone ((listed_iff_owner hinv.kern o).2 e)
+  have hdead2 := run_dead (c := c) o.pid o.ghost h2 s hok.ghost_lt hdead
+  obtain ⟨B', hB', hok'⟩ := hinv2.ps.objs o' (List.mem_of_getElem? ho')
+  have hs := isRunningO_spec hc hB' (hinv2.ps.boot_nz B' hB') hok'
+  rw [step_isRunning_out c _ ho']
+  congr 1
+  cases hr : (isRunningO c (run c s h2).kern (run c s h2).ps o').2.2 with
+  | false => rfl
+  | true =>
+    have := hs.iff.1 hr
+    rw [hevo.pid, hevo.ghost] at this
+    exact absurd this hdead2
+
+/-- what an object is (PID, the process it was built for, its `_ident`) never changes along a history; the sticky
+    flags only ever get set -/
+theorem object_constant_gen {c : Cfg} (hc : c.BootGood) (b0 : Nat) (hb0 : BtOK c.createNoneTest b0) (h : List Ev)
+    (hh : HistOK c.createNoneTest h) (i : Nat) (o : PObj) (ho : (run c (St.init b0) h).ps.objs[i]? = some o)
+    (h2 : List Ev) (hh2 : HistOK c.createNoneTest h2) :
+    ∃ o', (run c (run c (St.init b0) h) h2).ps.objs[i]? = some o' ∧ Evolves o o' :=
+  run_ext hc h2 _ hh2 (run_inv hc h _ hh (init_inv c.clk hb0)) i o ho
+
+theorem answers_stable_gen {c : Cfg} (hc : c.BootGood) (b0 : Nat) (hb0 : BtOK c.createNoneTest b0) (h : List Ev)
+    (hh : HistOK c.createNoneTest h) (i j : Nat) (a b : PObj)
+    (ha : (run c (St.init b0) h).ps.objs[i]? = some a) (hb : (run c (St.init b0) h).ps.objs[j]? = some b)
+    (h2 : List Ev) (hh2 : HistOK c.createNoneTest h2) :
+    (step c (run c (run c (St.init b0) h) h2) (.c (.eq i j))).2
+        = (step c (run c (St.init b0) h) (.c (.eq i j))).2
+    ∧ (step c (run c (run c (St.init b0) h) h2) (.c (.hash i))).2
+        = (step c (run c (St.init b0) h) (.c (.hash i))).2 := by
+  obtain ⟨a', ha', ea⟩ := object_constant_gen hc b0 hb0 h hh i a ha h2 hh2
+  obtain ⟨b', hb', eb⟩ := object_constant_gen hc b0 hb0 h hh j b hb h2 hh2
+  rw [step_eq_out c _ ha' hb', step_eq_out c _ ha hb, step_hash_out c _ ha', step_hash_out c _ ha,
+    ea.pid, ea.ident, eb.pid, eb.ident]
+  exact ⟨rfl, rfl⟩
+
+theorem run_append (c : Cfg) : ∀ (l1 l2 : List Ev) (s : St), run c s (l1 ++ l2) = run c (run c s l1) l2 := by
+  intro l1; induction l1 with
+  | nil => intro l2 s; rfl
+  | cons e es ih => intro l2 s; exact ih l2 _
+
 end Psutil.C01
